@@ -86,9 +86,15 @@ try:
             channel,
             force_as,
             seed,
+            utt2idx=None,
         ):
             super(_FeatureProcessorDataset, self).__init__()
             self.utt_path = tuple(utt2path.items())
+            # utt2idx maps an utterance to its position in the full list of utterances
+            # so that its seed does not depend on which other utterances are skipped
+            if utt2idx is None:
+                utt2idx = dict((utt, idx) for (idx, utt) in enumerate(utt2path))
+            self.utt_idx = tuple(utt2idx[utt] for utt in utt2path)
             self.preprocessors = preprocessors
             self.computer = computer
             self.postprocessors = postprocessors
@@ -101,7 +107,7 @@ try:
 
         @torch.no_grad()
         def __getitem__(self, idx):
-            torch.manual_seed(self.seed + idx)
+            torch.manual_seed(self.seed + self.utt_idx[idx])
             utt_id, path = self.utt_path[idx]
             try:
                 signal = read_signal(
@@ -541,6 +547,7 @@ def signals_to_torch_feat_dir(args=None):
             )
             return 1
         utt2path[utt_id] = " ".join(ls[1:])
+    utt2idx = dict((utt, idx) for (idx, utt) in enumerate(utt2path))
     if options.manifest is not None:
         options.manifest.seek(0)
         for line in options.manifest:
@@ -594,6 +601,7 @@ def signals_to_torch_feat_dir(args=None):
         options.channel,
         options.force_as,
         seed,
+        utt2idx,
     )
     loader = torch.utils.data.DataLoader(dataset, num_workers=options.num_workers)
     if not os.path.isdir(options.dir):
